@@ -4,6 +4,22 @@ import json, os
 ROOT = os.path.dirname(os.path.dirname(os.path.abspath(__file__)))
 
 CHECKS = {
+ "C09": dict(cat="exploration", engine="world+refctl+catalog", ref="§2 C09",
+   technique="exhaustive enumeration over every characteristic constructor × boundary value alphabet, id-list shapes, every response body length 0..4200/9000 and growing databases, against the real transport with an independent verified controller; typed-cell reference model",
+   text="Every constructor × its format's boundary alphabet is set by the application and read three ways, and written by the controller and compared with getter and callback; all id-list shapes; every body length in the sweep range; databases up to 57/157 accessories.",
+   note="Values compared after JSON decoding; only valid (in-bounds) values are in scope."),
+ "C10": dict(cat="model_checking", engine="seqx+world+refctl", ref="§2 C10",
+   technique="exhaustive history exploration (depth 3 with 2 connections; thorough depth 4 / 3 connections) over subscribe, unsubscribe, writes, application sets, close, reconnect with a barrier after every event; subscription-relation reference model",
+   text="Every history up to the bound on a fresh real system with really verified connections; after every event the EVENT messages collected by a barrier on every open connection must equal the model's multiset exactly.",
+   note="Order across different characteristics is not judged; a mismatch is re-checked after 20 ms and 500 ms before it counts."),
+ "C11": dict(cat="exploration", engine="world+refctl+catalog", ref="§2 C11",
+   technique="exhaustive enumeration over every characteristic constructor and 40 generic constructor × permission-subset configurations × JSON value alphabet, in-process and over HTTP",
+   text="Every subject × ≈40 values through the in-process remote-update API; every subject through PUT value / GET / ev=true / value+ev / change+barrier over the real transport.",
+   note="A refused write need not produce an error status; only 'nothing changes, nothing is revealed, no event' is judged."),
+ "C20": dict(cat="model_checking", engine="seqx+world+refctl / enumx", ref="§2 C20",
+   technique="exhaustive history exploration of restart/pair/unpair/value-change sequences on one storage directory against a reference model of id, key, pairings, c# and sf; exhaustive sweep of all 10^8 setup codes and a hostile string alphabet; exhaustive category × flags × id grid with an independent setup-URI decoder",
+   text="All histories of length 3/4 over 8 symbols after an initial start, TXT records and store compared with the model after every event; ValidatePin and XHMURI over all 10^8 codes and all strings ≤9 over a 6-symbol alphabet.",
+   note="Restart = stop + new transport in the same process on the same directory; TXT records through the verif accessor."),
  "C01": dict(cat="model_checking", engine="seqx+world+refctl", ref="§2 C01",
    technique="exhaustive history exploration (depth 3/4) over an adversary + legitimate-controller + application alphabet against the real transport over TCP, reference model compared after every event",
    text="Every history up to the depth bound over 24/33 symbols (two adversary connections, a legitimate controller, the application) is replayed on a fresh real system; after every event refusal, non-disclosure, absence of EVENTs, values, callback counters and stored pairings are compared with the reference model.",
